@@ -184,6 +184,8 @@ def _txn(ctx, cfg, prog, mod):
                     if (ct.resolved or ct.callee) == callee:
                         cf_ = flow.call_flow(bb_, cbb)
                         n_edges += len(cf_.err_edges if which == 'err' else cf_.ok_edges)
+                if bb_.kind == 'closure':
+                    n_edges += len(eng._captured_cut_edges(bb_, callee, which))
             if n_edges == 0:
                 ctx.ob('ANCHOR', 'infeasible-edge-missing|%s|%s' % (fq, callee), cfg, False,
                        'INFEASIBLE table entry (%s, %s %s edge) matches no edge any more' % (fq, callee, which))
